@@ -376,6 +376,21 @@ def run_shard(ctx):
         for smi in pl:
             if ctx.mine(i):
                 check_case(ctx, {'scheme': spec, 'smiles': smi})
+                if any(c.isdigit() for c in smi):
+                    # ring molecules also in two non-canonical spellings:
+                    # ring perception walks each ring in atom order
+                    m_ = Chem.MolFromSmiles(smi)
+                    r_ = ctx.sub_rng('spell', smi)
+                    for _ in range(2):
+                        if m_ is None:
+                            break
+                        order = list(range(m_.GetNumAtoms()))
+                        r_.shuffle(order)
+                        alt = Chem.MolToSmiles(Chem.RenumberAtoms(m_, order),
+                                               canonical=False)
+                        if alt != smi and Chem.MolFromSmiles(alt) is not None:
+                            ctx.count('ring_molecules_respelled')
+                            check_case(ctx, {'scheme': spec, 'smiles': alt})
             i += 1
 
 
